@@ -120,6 +120,7 @@ pub fn resp_case(u: &mut Unstructured<'_>) -> R<RespCase> {
         pieces,
         upgrade: None,
         utf8: u.arbitrary()?,
+        plan: if u.ratio(1, 3)? { 0 } else { u.arbitrary()? },
     })
 }
 
